@@ -45,6 +45,7 @@ func TestE2E(t *testing.T) {
 	seed := uint64(envInt("VERIF_SEED", 1))
 	n := envInt("VERIF_N", 100)
 	prof := profileByName(os.Getenv("VERIF_PROFILE"))
+	ropts := runOpts{kind: os.Getenv("VERIF_BACKEND")}
 	g := newG(seed, 0x9e3779b97f4a7c15)
 	var cases, impl []string
 	// the case being run is kept on disk, so that a crash of the process (a panic in a goroutine the
@@ -53,7 +54,7 @@ func TestE2E(t *testing.T) {
 	for _, c := range corpusCases() {
 		_ = os.WriteFile(current, []byte(c.Encode()), 0o644)
 		cases = append(cases, c.Encode())
-		impl = append(impl, runCase(t, c, runOpts{})...)
+		impl = append(impl, runCase(t, c, ropts)...)
 	}
 	for i := 0; i < n; i++ {
 		var c *Case
@@ -65,7 +66,7 @@ func TestE2E(t *testing.T) {
 		canonCase(c)
 		_ = os.WriteFile(current, []byte(c.Encode()), 0o644)
 		cases = append(cases, c.Encode())
-		impl = append(impl, runCase(t, c, runOpts{})...)
+		impl = append(impl, runCase(t, c, ropts)...)
 	}
 	_ = os.Remove(current)
 	if err := writeLines(filepath.Join(out, "cases.txt"), cases); err != nil {
